@@ -157,7 +157,8 @@ def r07_3(rep, M, rid, representative=False):
     ctor = [c for c in ast.walk(fn) if isinstance(c, ast.Call) and M.resolve(fq, c.func) == "matid.symmetry.wyckoffset.WyckoffSet"]
     if not ctor:
         raise AnalysisError("_get_wyckoff_sets: WyckoffSet(...) not found")
-    kw = {k.arg: k.value for k in ctor[0].keywords}
+    init = M.find_method("matid.symmetry.wyckoffset.WyckoffSet", "__init__")
+    kw = M.bind_args(init, ctor[0]) if init else {k.arg: k.value for k in ctor[0].keywords}      # by parameter name, however the call passes them
     idxs = {norm(x.slice) for k in ("wyckoff_letter", "element", "atomic_number") if k in kw for x in ast.walk(kw[k]) if isinstance(x, ast.Subscript)}
     srcs = {k: {norm(x.value) for x in ast.walk(kw[k]) if isinstance(x, ast.Subscript)} for k in ("wyckoff_letter", "element", "atomic_number") if k in kw}
     # the index must be the *position of the orbit's first atom* (second output of np.unique(..., return_index=True)),
@@ -240,11 +241,12 @@ def run(rep, ctx):
     with rep.guard("R07.7"):
         from . import c05 as _c05b
         _c05b.r05_6(rep, M, "R07.7")
-    rep.rule("R07.8", "spglib is given the analysed structure unmodified with the analyzer's tolerance, and its standardised lattice / positions / types are used without a change of convention (shared with C05)")
+    rep.rule("R07.8", "spglib's standardised lattice / positions / types are turned into the conventional system without a change of convention "
+                      "(the returned cell is the one whose orbits are reported; what spglib was given does not matter here; shared with C05)")
     with rep.guard("R07.8"):
-        from . import shared as _shb
-        _shb.spglib_boundary(rep, ctx.model, "R07.8")
-    rep.floor("R07.8", 7)
+        from . import c05 as _c05r
+        _c05r.r05_5b(rep, ctx.model, "R07.8")
+    rep.floor("R07.8", 2)
     rep.rule("R07.9", "every tabulated normalizer is an automorphism of its group and an isometry of the lattice (the normalised cell is the same crystal in the same space group; shared with C05/C14)")
     from . import shared as _shn
     _shn.normalizer_tables(rep, ctx.tables, "R07.9", perm=False)
